@@ -1,5 +1,6 @@
 import AmrK.PestleMask
 import AmrK.PestleIntegral
+import AmrK.Hyps
 /-! # C09 — pestle integrates every point of the domain exactly once -/
 namespace C09
 open Pestle
@@ -18,6 +19,12 @@ theorem mask_correct (r : Nat) (fine : Level) (b : Box) (l0 l1 l2 h0 h1 h2 g0 g1
 theorem integral_eq_sum_over_uncovered (r : Nat) (lvls : List Level) (h : AlignedAll r lvls) :
     integralGo r lvls = some (integralSpec lvls) :=
   integralGo_eq_spec r lvls h
+
+/-- the alignment hypothesis in decidable form, evaluated by the driver on every generated mesh:
+    whenever it reports `aligned`, the conclusion holds -/
+theorem integral_of_checked_alignment (r : Nat) (lvls : List Level) (h : alignedAllB r lvls = true) :
+    integralGo r lvls = some (integralSpec lvls) :=
+  Pestle.integral_of_checked r lvls h
 
 /-- the per-axis arithmetic behind it: the mask lookup equals the true occupancy entry -/
 theorem mask_entry (r lo c : Nat) (hr : 0 < r) (heven : r % 2 = 0) (hal : (2 * lo) % r = 0) (hc : lo ≤ c) :
